@@ -219,6 +219,19 @@ pub fn run(ctx: &Ctx) -> Result<(), String> {
             ("after-document-end-marker", format!("{}...\n---\nnum_workers: 3\n", b), vec![("num_workers", json!(3))]),
             ("key-written-twice", format!("{}batch_size: 8\nbatch_size: 9\n", b), vec![]),
         ];
+        // an unknown key makes start-up fail whatever is written as its value (nothing, null, a list,
+        // a mapping, a boolean)
+        for (what, line) in [("unknown-key-empty-value", "bogus_setting:"), ("unknown-key-tilde", "bogus_setting: ~"), ("unknown-key-null", "bogus_setting: null"), ("unknown-key-list", "bogus_setting: [1, 2]"), ("unknown-key-mapping", "bogus_setting: {a: 1}"), ("unknown-key-boolean", "bogus_setting: true"), ("unknown-key-first", "")] {
+            let yaml = if what == "unknown-key-first" { format!("bogus_setting:\n{}", b) } else { format!("{}{}\n", b, line) };
+            let o = crate::proc::cfgprobe_raw(&yaml)?;
+            evals.fetch_add(1, Relaxed);
+            nontrivial.fetch_add(1, Relaxed);
+            let accepted = o["accepted"] == true;
+            *classes.lock().unwrap().entry(format!("file-structure/{}:{}", what, if accepted { "accepted" } else { "refused" })).or_insert(0) += 1;
+            if accepted {
+                ctx.violation("accepted-unknown-key", "file-structure", "File", json!({"kind":"probe-raw","case":what,"yaml":yaml,"probe":o}));
+            }
+        }
         for (what, yaml, must_be_effective) in cases {
             let o = crate::proc::cfgprobe_raw(&yaml)?;
             evals.fetch_add(1, Relaxed);
